@@ -90,3 +90,63 @@ harness! {
         cover!(k == 9 && s % 8 != d % 8);
     }
 }
+
+// Data::into_move for piece moves, against every candidate list the contract of san_candidates
+// allows (<= 8 moves of that piece to that square from distinct sources).  Leaner formulation of
+// moves_san_harness.rs::c09_into_move_simple (which ran out of memory in CBMC's propositional
+// reduction): the expected answer is computed in one pass over the list.
+static mut CAND2: [base::Move; 8] = [base::Move::NULL; 8];
+static mut NCAND2: usize = 0;
+fn stub_candidates2<P: MovePush>(_b: &Board, _piece: Piece, _dst: Coord, res: &mut P) {
+    let n = unsafe { NCAND2 };
+    let mut i = 0;
+    while i < 8 { if i < n { res.push(unsafe { CAND2[i] }); } i += 1; }
+}
+harness! {
+    #[kani::unwind(10)]
+    #[kani::stub(crate::movegen::san_candidates, stub_candidates2)]
+    fn c09_into_move_simple_v2() {
+        let b = ab::any_board();
+        let white = b.r.side == Color::White;
+        let pc = vk::any_u8(); vk::assume(1 <= pc && pc <= 5);
+        let d = ab::any_sq();
+        let n = vk::any_u8() as usize; vk::assume(n <= 8);
+        let mut srcs = [0u8; 8];
+        let mut i = 0;
+        while i < 8 {
+            srcs[i] = ab::any_sq();
+            let mut j = 0; while j < i { vk::assume(srcs[j] != srcs[i]); j += 1; }
+            unsafe { CAND2[i] = base::Move::new_unchecked(MoveKind::Simple, ab::cell(rs::code(white, pc)), ab::coord(srcs[i]), ab::coord(d)); }
+            i += 1;
+        }
+        unsafe { NCAND2 = n; }
+        let fx = vk::any_u8(); vk::assume(fx <= 8);
+        let rx = vk::any_u8(); vk::assume(rx <= 8);
+        let file = if fx == 8 { None } else { Some(File::from_index(fx as usize)) };
+        let rank = if rx == 8 { None } else { Some(Rank::from_index(rx as usize)) };
+        let is_capture = vk::any_bool();
+        let data = Data::Simple { piece: Piece::from_index(pc as usize), file, rank, is_capture, dst: ab::coord(d) };
+        let res = data.into_move(&b);
+        // expected: the candidates (in push order) that agree with the written origin hints
+        let (mut cnt, mut first, mut second) = (0u32, 64u8, 64u8);
+        let mut i = 0;
+        while i < 8 { if i < n {
+            let o = srcs[i];
+            if (fx == 8 || o % 8 == fx) && (rx == 8 || o / 8 == rx) {
+                if cnt == 0 { first = o; } else if cnt == 1 { second = o; }
+                cnt += 1;
+            }
+        } i += 1; }
+        let empty_dst = rs::ci(b.r.cells[d as usize]) == 0;
+        match res {
+            Err(IntoMoveError::CaptureExpected) => assert!(is_capture && empty_dst),
+            Ok(m) => { assert!(!(is_capture && empty_dst)); assert!(cnt == 1 && m.src().index() as u8 == first && m.dst().index() as u8 == d && m.kind() == MoveKind::Simple); }
+            Err(IntoMoveError::NotFound) => assert!(cnt == 0),
+            // reports ambiguity, naming two different agreeing candidates, rather than choosing
+            Err(IntoMoveError::Ambiguity(m1, m2)) => assert!(cnt >= 2 && m2.src().index() as u8 == first && m1.src().index() as u8 == second && first != second),
+            Err(_) => assert!(false, "unexpected error kind"),
+        }
+        cover!(cnt == 1 && fx != 8);
+        cover!(cnt >= 3);
+    }
+}
